@@ -7,7 +7,8 @@ RULE = ("(a) generated directory trees (depth <= 4; .git/.idea/node_modules dirs
         "contain a skip name or '.rego', duplicate / overlapping / missing path arguments) created on disk and discovered with "
         "FilterIgnoredPaths(checkFileExists); (b) marker workspaces linted as a batch and file by file: non-aggregate violations "
         "per file must be identical; summary counts measured against the returned violation list. distinct = distinct tree+args "
-        "/ workspace; non-trivial = at least one file is skipped or filtered, resp. at least one violation")
+        "/ workspace; non-trivial = at least one file is skipped or filtered, resp. at least one violation"
+        ' Also: the composition predicate with every real rule active (implementation only), and batches of 5-70 (thorough 3-200) files under GOMAXPROCS 1/2/16.')
 TRUSTED = ["os / filepath.WalkDir visit entries in lexical order (the model sorts children)", "Env boundary for (b)"]
 ASSUMPTIONS = ["Env.OpsIrrelevant: a rule's report does not depend on 'collect' being among the operations (sampled by (b))"]
 
